@@ -48,6 +48,22 @@ class C35(EngineProp):
                     r.v("not_running_without_running", step=e.name, worker=e.worker_id)
                 open_[key] = False
                 n_not[e.name] = n_not.get(e.name, 0) + 1
+        # every event that had to wait for capacity announced PREPARING: the step queues seen after each tick (probe) hold the events
+        # that were waiting at that moment; (event, attempt) pairs seen waiting are a lower bound on the PREPARING changes of the step
+        waited: dict[str, set] = {}
+        for tk in rec.ticks:
+            for name, w in tk["workers"].items():
+                for q in w["queue"]:
+                    waited.setdefault(name, set()).add(tuple(q))
+        prep_by_step: dict[str, int] = {}
+        for _, _, e in sse:
+            if e.step_state.value == "preparing":
+                prep_by_step[e.name] = prep_by_step.get(e.name, 0) + 1
+        for name, ws in waited.items():
+            if prep_by_step.get(name, 0) < len(ws):
+                r.v("waited_for_capacity_without_preparing", step=name, waited=len(ws), preparing=prep_by_step.get(name, 0))
+        if any(len(ws) >= 2 for ws in waited.values()):
+            r.classes.append("two_or_more_events_waited_on_one_step")
         # every PREPARING is followed by a distinct later RUNNING of the same step (strict mode)
         n_prep = sum(1 for _, _, e in sse if e.step_state.value == "preparing")
         if strict:
